@@ -710,4 +710,272 @@ Section Setitem.
           constructor; [eapply assign_coef_frame; eassumption | eapply IH; eassumption].
         * injection H as <- <-. apply Forall2_refl_frame.
   Qed.
+
+  (* ---- the loop as a whole ---- *)
+  Lemma set_loop_None ix l os l' :
+    set_loop ix l os = (l', None) ->
+    Forall2 (fun so s' => assign_coef ix (fst so) (snd so) = Ok s') (combine l os) (firstn (length os) l') /\
+    skipn (length os) l' = skipn (length os) l /\ length l' = length l.
+  Proof.
+    revert os l'. induction l as [|s l IH]; intros os l' H.
+    - cbn in H. injection H as <-. cbn. rewrite firstn_nil, !skipn_nil. repeat split; constructor.
+    - destruct os as [|o os]; cbn in H.
+      + injection H as <-. cbn. repeat split; constructor.
+      + destruct (assign_coef ix s o) as [s'|e0] eqn:E; [|discriminate].
+        destruct (set_loop ix l os) as [r e1] eqn:E'. injection H as <- ->.
+        destruct (IH _ _ E') as (H1 & H2 & H3). cbn. repeat split; auto. constructor; assumption.
+  Qed.
+
+  (* an exception leaves the entries before the failing one assigned, the failing one and the rest untouched *)
+  Lemma set_loop_Some ix l os l' e :
+    set_loop ix l os = (l', Some e) ->
+    exists pre s post preo o posto pre',
+      l = pre ++ s :: post /\ os = preo ++ o :: posto /\ l' = pre' ++ s :: post /\
+      Forall2 (fun so s' => assign_coef ix (fst so) (snd so) = Ok s') (combine pre preo) pre' /\
+      length preo = length pre /\ length pre' = length pre /\ assign_coef ix s o = Err e.
+  Proof.
+    revert os l'. induction l as [|s l IH]; intros os l' H.
+    - cbn in H. discriminate.
+    - destruct os as [|o os]; cbn in H; [discriminate|].
+      destruct (assign_coef ix s o) as [s'|e0] eqn:E.
+      + destruct (set_loop ix l os) as [r e1] eqn:E'. injection H as <- ->.
+        destruct (IH _ _ E') as (pre & s0 & post & preo & o0 & posto & pre' & -> & -> & -> & H1 & H2 & H3 & H4).
+        exists (s :: pre), s0, post, (o :: preo), o0, posto, (s' :: pre'). cbn. repeat split; auto.
+      + injection H as <- <-. exists [], s, l, [], o, os, []. cbn. repeat split; auto.
+  Qed.
+
+  (* when one assignment raises, and what *)
+  Definition compatible (ad : addr) o : Prop :=
+    match ad with
+    | AOne _ => exists x, is_scalar o x
+    | AMany ps => exists vs, bc_coef (length ps) o = Ok vs
+    end.
+
+  Lemma assign_coef_Ok_iff ix s o :
+    (exists s', assign_coef ix s o = Ok s') <->
+    exists a ad, s = CArr a /\ addr_of (length a) ix = Ok ad /\ compatible ad o.
+  Proof.
+    split.
+    - intros (s' & H). destruct s as [x|x|a]; cbn in H; try discriminate.
+      destruct (assign_arr ix a o) as [a'|e] eqn:E; [|discriminate].
+      apply assign_arr_spec in E. destruct E as ([p|ps] & Had & Hc); exists a; eexists; repeat split; try eassumption; cbn.
+      + destruct Hc as (x & Hx & _). eauto.
+      + destruct Hc as (vs & Hv & _). eauto.
+    - intros (a & ad & -> & Had & Hc). cbn.
+      assert (exists a', assign_arr ix a o = Ok a') as (a' & ->); [|cbn; eauto].
+      destruct ad as [p|ps]; cbn in Hc.
+      + destruct Hc as (x & Hx). exists (set_nth p x a). apply assign_arr_spec. exists (AOne p). split; eauto.
+      + destruct Hc as (vs & Hv). exists (write_pos ps vs a). apply assign_arr_spec. exists (AMany ps). split; eauto.
+  Qed.
+
+  Lemma assign_coef_Err ix s o e :
+    assign_coef ix s o = Err e ->
+    ((forall a, s <> CArr a) /\ e = EType) \/
+    (exists a, s = CArr a /\
+       (addr_of (length a) ix = Err e \/
+        exists ad, addr_of (length a) ix = Ok ad /\ e = EValue /\ ~ compatible ad o)).
+  Proof.
+    destruct s as [x|x|a]; cbn; try (intros [= <-]; left; split; [intros ? ?; discriminate | reflexivity]).
+    unfold assign_arr. intro H. right. exists a. split; [reflexivity|].
+    destruct (addr_of (length a) ix) as [[p|ps]|e0]; cbn in H.
+    - right. exists (AOne p). split; [reflexivity|]. destruct o as [x|x|l]; try discriminate. injection H as <-.
+      split; [reflexivity|]. intros (x & [Hx|Hx]); discriminate.
+    - right. exists (AMany ps). split; [reflexivity|].
+      destruct (bc_coef (length ps) o) as [vs|e1] eqn:E; cbn in H; [discriminate|]. injection H as <-.
+      assert (e1 = EValue) as ->.
+      { destruct o as [x|x|l]; cbn in E; try discriminate. unfold bc_row in E.
+        destruct (Nat.eqb (length l) (length ps)); [discriminate|]. destruct l as [|? [|? ?]]; congruence. }
+      split; [reflexivity|]. intros (vs & Hv). cbn in Hv. congruence.
+    - left. congruence.
+  Qed.
+
+  (* ---- writing the loop's result back into `_values` ---- *)
+  Lemma arrays_of_map (rows : list (list R)) : arrays_of (map CArr rows) = rows.
+  Proof. induction rows; cbn; congruence. Qed.
+
+  Lemma restore_entries st : restore st (entries st) = st.
+  Proof. destruct st; cbn; auto. rewrite arrays_of_map. reflexivity. Qed.
+
+  (* the kind of storage, the numbers of a 1-D ndarray and the length of the trailing axis never change *)
+  Definition same_kind st st' : Prop :=
+    match st, st' with
+    | LBack _, LBack _ => True
+    | Nd1 v, Nd1 v' => v' = v
+    | Nd2 n _, Nd2 n' _ => n' = n
+    | _, _ => False
+    end.
+  Lemma same_kind_refl st : same_kind st st.
+  Proof. destruct st; cbn; auto. Qed.
+
+  Lemma frame_restore ix st l' :
+    Forall2 (frame_coef ix) (entries st) l' ->
+    entries (restore st l') = l' /\ same_kind st (restore st l') /\ (wf_store st -> wf_store (restore st l')).
+  Proof.
+    destruct st as [l|v|n rows]; cbn; intro H.
+    - auto.
+    - repeat split; auto. revert l' H. induction v as [|x v IH]; intros l' H; inversion H; subst; cbn; [reflexivity|].
+      match goal with Hf : frame_coef _ (CNp _) _ |- _ => cbn in Hf; rewrite Hf end. f_equal. apply IH. assumption.
+    - assert (exists rows', l' = map CArr rows' /\ Forall2 (fun r r' => length r' = length r) rows rows') as (rows' & -> & Hlen).
+      { revert l' H. induction rows as [|r rows IH]; intros l' H; inversion H; subst.
+        - exists []. split; [reflexivity | constructor].
+        - match goal with Hf : frame_coef _ (CArr _) _ |- _ => cbn in Hf; destruct Hf as (a' & -> & Hl & _) end.
+          match goal with Hf : Forall2 _ (map CArr rows) _ |- _ => destruct (IH _ Hf) as (rows' & -> & Hr) end.
+          exists (a' :: rows'). split; [reflexivity | constructor; assumption]. }
+      rewrite arrays_of_map. repeat split; auto. intro Hwf.
+      induction Hlen as [|r r' rows rows' Hr _ IH]; [constructor|]. inversion Hwf; subst. constructor; [lia | apply IH; assumption].
+  Qed.
+
+  (* FRAME.  Whatever is assigned and whether or not it raises: the keys, the kind of storage, the number of
+     coefficients, the length of every coefficient are unchanged, and an entry of a coefficient that the
+     subscript does not address keeps its value.  Numbers (python or numpy scalars) never change. *)
+  Theorem setitem_frame X item V st' e :
+    mv_setitem X item V = (st', e) ->
+    Forall2 (frame_coef (norm_item item)) (entries (s_vals X)) (entries st') /\
+    same_kind (s_vals X) st' /\ (wf_store (s_vals X) -> wf_store st').
+  Proof.
+    unfold mv_setitem. intro H.
+    assert (Hsame : forall e0, (s_vals X, e0) = (st', e) ->
+              Forall2 (frame_coef (norm_item item)) (entries (s_vals X)) (entries st') /\
+              same_kind (s_vals X) st' /\ (wf_store (s_vals X) -> wf_store st')).
+    { intros e0 [= <- _]. repeat split; auto using Forall2_refl_frame, same_kind_refl. }
+    assert (Hloop : forall vst, (let '(l', e0) := set_loop (norm_item item) (entries (s_vals X)) (entries vst) in
+                                 (restore (s_vals X) l', e0)) = (st', e) ->
+              Forall2 (frame_coef (norm_item item)) (entries (s_vals X)) (entries st') /\
+              same_kind (s_vals X) st' /\ (wf_store (s_vals X) -> wf_store st')).
+    { intros vst H0. destruct (set_loop _ _ _) as [l' e0] eqn:E. injection H0 as <- <-.
+      apply set_loop_frame in E. destruct (frame_restore _ _ _ E) as (H1 & H2 & H3). rewrite H1. auto. }
+    destruct V as [ks vst|vst|x].
+    - destruct (list_eqb Z.eqb (s_keys X) ks); eauto.
+    - eauto.
+    - eauto.
+  Qed.
+
+  (* a multivector with other keys is refused and nothing changes *)
+  Theorem setitem_keys_mismatch X item ks vst :
+    ks <> s_keys X -> mv_setitem X item (FromMv ks vst) = (s_vals X, Some EValue).
+  Proof.
+    intro H. unfold mv_setitem. destruct (list_eqb Z.eqb (s_keys X) ks) eqn:E; [|reflexivity].
+    apply list_eqb_Z_eq in E. congruence.
+  Qed.
+
+  (* EXACT.  What X[idx] holds after a successful X[idx] = V, coefficient by coefficient *)
+  Definition bcast_coef (ad : addr) o : coef R :=
+    match ad with
+    | AOne _ => match o with CNum x | CNp x => CNp x | CArr _ => o end
+    | AMany ps => match bc_coef (length ps) o with Ok vs => CArr vs | Err _ => o end
+    end.
+
+  Lemma assign_coef_exact ix s o s' :
+    assign_coef ix s o = Ok s' ->
+    exists a a' ad, s = CArr a /\ s' = CArr a' /\ length a' = length a /\ addr_of (length a) ix = Ok ad /\
+                    get_coef ix s' = Ok (bcast_coef ad o).
+  Proof.
+    destruct s as [x|x|a]; cbn; try discriminate.
+    destruct (assign_arr ix a o) as [a'|e] eqn:E; cbn; [|discriminate]. intros [= <-].
+    pose proof (assign_arr_length _ _ _ _ E) as Hlen.
+    apply assign_arr_spec in E. destruct E as (ad & Had & Hc).
+    exists a, a', ad. repeat split; auto.
+    pose proof (addr_of_wf _ _ _ Had) as Hwf.
+    unfold get_arr. rewrite Hlen, Had. cbn. destruct ad as [p|ps]; cbn in *.
+    - destruct Hc as (x & Hx & ->). rewrite nth_error_set_nth, Nat.eqb_refl.
+      apply Nat.ltb_lt in Hwf. rewrite Hwf. cbn. destruct Hx as [-> | ->]; reflexivity.
+    - destruct Hc as (vs & Hv & ->). destruct Hwf as [Hin Hnd]. rewrite Hv.
+      rewrite pick_write; auto. eapply bc_coef_length; eassumption.
+  Qed.
+
+  Definition coef_len c : nat := match c with CArr a => length a | _ => 0 end.
+
+  Theorem setitem_exact X item ks vst st' :
+    mv_setitem X item (FromMv ks vst) = (st', None) ->
+    ks = s_keys X /\
+    Forall2 (fun so s' => assign_coef (norm_item item) (fst so) (snd so) = Ok s')
+            (combine (entries (s_vals X)) (entries vst)) (firstn (length (entries vst)) (entries st')) /\
+    skipn (length (entries vst)) (entries st') = skipn (length (entries vst)) (entries (s_vals X)) /\
+    length (entries st') = length (entries (s_vals X)).
+  Proof.
+    unfold mv_setitem. destruct (list_eqb Z.eqb (s_keys X) ks) eqn:Ek; [|discriminate].
+    apply list_eqb_Z_eq in Ek. destruct (set_loop _ _ _) as [l' e0] eqn:E. intros [= <- ->].
+    pose proof (set_loop_frame _ _ _ _ _ E) as Hf. destruct (frame_restore _ _ _ Hf) as (-> & _).
+    apply set_loop_None in E. split; [congruence | exact E].
+  Qed.
+
+  (* the round trip: after a successful X[idx] = V (V a multivector with as many coefficients as X), X[idx]
+     holds V's coefficients, each broadcast to the addressed shape of ITS OWN blade *)
+  Theorem getitem_setitem X item ks vst st' Y :
+    wf_store (s_vals X) -> length (entries vst) = length (entries (s_vals X)) ->
+    mv_setitem X item (FromMv ks vst) = (st', None) ->
+    mv_getitem (mkSmv (s_keys X) st') item = Ok Y ->
+    s_keys Y = s_keys X /\
+    Forall2 (fun so y => exists ad, addr_of (coef_len (fst so)) (norm_item item) = Ok ad /\ y = bcast_coef ad (snd so))
+            (combine (entries (s_vals X)) (entries vst)) (entries (s_vals Y)).
+  Proof.
+    intros Hwf Hlen Hset Hget.
+    destruct (setitem_frame _ _ _ _ _ Hset) as (_ & _ & Hwf'). specialize (Hwf' Hwf).
+    destruct (setitem_exact _ _ _ _ _ Hset) as (_ & Hex & _ & Hlen').
+    rewrite Hlen, <- Hlen', firstn_all in Hex.
+    destruct (getitem_exact (mkSmv (s_keys X) st') item Y Hwf' Hget) as (Hk & Hg & _). cbn in Hk, Hg.
+    split; [exact Hk|].
+    revert Hg. generalize (entries (s_vals Y)). clear - Hex.
+    induction Hex as [|[s o] s' l l' H _ IH]; intros ys Hg; inversion Hg; subst; constructor; auto.
+    cbn in H. destruct (assign_coef_exact _ _ _ _ H) as (a & a' & ad & -> & -> & _ & Had & Hget').
+    exists ad. cbn. split; [assumption | congruence].
+  Qed.
+
+  Lemma bcast_coef_scalar_one p o x : is_scalar o x -> bcast_coef (AOne p) o = CNp x.
+  Proof. intros [-> | ->]; reflexivity. Qed.
+  Lemma bcast_coef_scalar_many ps o x : is_scalar o x -> bcast_coef (AMany ps) o = CArr (repeat x (length ps)).
+  Proof. intros [-> | ->]; reflexivity. Qed.
+  Lemma bcast_coef_aligned ps l : length l = length ps -> bcast_coef (AMany ps) (CArr l) = CArr l.
+  Proof. intro H. cbn. unfold bc_row. apply Nat.eqb_eq in H. rewrite H. reflexivity. Qed.
+
+  (* X[idx] = V succeeds iff for every blade the coefficient of X is an array, the subscript is valid for it and
+     V's coefficient can be broadcast to the addressed shape *)
+  Theorem setitem_succeeds_iff X item vst :
+    length (entries vst) = length (entries (s_vals X)) ->
+    ((exists st', mv_setitem X item (FromMv (s_keys X) vst) = (st', None)) <->
+     Forall (fun so => exists a ad, fst so = CArr a /\ addr_of (length a) (norm_item item) = Ok ad /\ compatible ad (snd so))
+            (combine (entries (s_vals X)) (entries vst))).
+  Proof.
+    intro Hlen. unfold mv_setitem.
+    assert (list_eqb Z.eqb (s_keys X) (s_keys X) = true) as -> by (apply list_eqb_Z_eq; reflexivity).
+    generalize (restore (s_vals X)). revert Hlen. generalize (entries vst) as os. generalize (entries (s_vals X)) as l.
+    intros l os Hlen rst. split.
+    - intros (st' & H). destruct (set_loop _ l os) as [l' e0] eqn:E. injection H as _ ->.
+      apply set_loop_None in E. destruct E as (E & _).
+      clear - E. revert E. generalize (firstn (length os) l'). induction (combine l os) as [|[s o] c IH]; intros l0 E; constructor.
+      + inversion E; subst. apply assign_coef_Ok_iff. eauto.
+      + inversion E; subst. eapply IH; eassumption.
+    - intro H. revert os Hlen H. induction l as [|s l IH]; intros [|o os] Hlen H; try discriminate; cbn.
+      + eauto.
+      + inversion H as [|? ? Hso H']; subst. apply (proj2 (assign_coef_Ok_iff _ _ _)) in Hso. destruct Hso as (s' & ->).
+        cbn in Hlen. destruct (IH os ltac:(lia) H') as (st' & E).
+        destruct (set_loop _ l os) as [r e1]. injection E as _ ->. eauto.
+  Qed.
+
+  (* assigning what was read changes nothing *)
+  Theorem setitem_of_getitem X item Y :
+    Forall (fun c => exists a, c = CArr a) (entries (s_vals X)) ->
+    mv_getitem X item = Ok Y -> wf_store (s_vals X) ->
+    mv_setitem X item (FromMv (s_keys X) (s_vals Y)) = (s_vals X, None).
+  Proof.
+    intros Harr Hget Hwf. destruct (getitem_exact _ _ _ Hwf Hget) as (_ & Hg & _).
+    unfold mv_setitem.
+    assert (list_eqb Z.eqb (s_keys X) (s_keys X) = true) as -> by (apply list_eqb_Z_eq; reflexivity).
+    assert (set_loop (norm_item item) (entries (s_vals X)) (entries (s_vals Y)) = (entries (s_vals X), None)) as ->.
+    { revert Harr Hg. generalize (entries (s_vals Y)) as ys. generalize (entries (s_vals X)) as l.
+      induction l as [|s l IH]; intros ys Harr Hg; inversion Hg; subst; [reflexivity|].
+      inversion Harr as [|? ? (a & ->) Harr']; subst. cbn [set_loop].
+      match goal with Hc : get_coef _ (CArr a) = Ok ?y |- _ => rename Hc into Hy end.
+      assert (assign_coef (norm_item item) (CArr a) y = Ok (CArr a)) as ->.
+      { apply get_coef_spec in Hy. destruct Hy as (ad & Had & Hc). cbn.
+        assert (assign_arr (norm_item item) a y = Ok a) as ->; [|reflexivity].
+        apply assign_arr_spec. exists ad. split; [assumption|].
+        pose proof (addr_of_wf _ _ _ Had) as Hw. destruct ad as [p|ps]; cbn in Hw.
+        - destruct Hc as (x & Hx & ->). exists x. split; [right; reflexivity | symmetry; apply set_nth_same; assumption].
+        - subst y. destruct Hw as [Hin _]. exists (pick ps a). split.
+          + cbn. unfold bc_row. rewrite (pick_length _ _ Hin), Nat.eqb_refl. reflexivity.
+          + symmetry. apply write_pick. assumption. }
+      rewrite (IH _ Harr' ltac:(assumption)). reflexivity. }
+    rewrite restore_entries. reflexivity.
+  Qed.
 End Setitem.
